@@ -152,6 +152,14 @@ func (p *Peering) AddLink(link Link) error {
 	p.linksLock.Lock()
 	defer p.linksLock.Unlock()
 
+	// Check if the peer or the switch label are already taken by another link.
+	if existing, ok := p.links[link.Peer()]; ok && existing != link {
+		return fmt.Errorf("already connected to %s", link.Peer())
+	}
+	if existing, ok := p.linksByLabel[link.SwitchLabel()]; ok && existing != link {
+		return fmt.Errorf("switch label %d is already in use", link.SwitchLabel())
+	}
+
 	_, err := p.instance.RoutingTable().AddRoute(m.RoutingTableEntry{
 		DstIP:   link.Peer(),
 		NextHop: link.Peer(),
@@ -172,9 +180,14 @@ func (p *Peering) RemoveLink(link Link) {
 	p.linksLock.Lock()
 	defer p.linksLock.Unlock()
 
-	delete(p.links, link.Peer())
-	delete(p.linksByLabel, link.SwitchLabel())
-	p.instance.RoutingTable().RemoveNextHop(link.Peer())
+	// Only remove entries that belong to this link.
+	if p.links[link.Peer()] == link {
+		delete(p.links, link.Peer())
+		p.instance.RoutingTable().RemoveNextHop(link.Peer())
+	}
+	if p.linksByLabel[link.SwitchLabel()] == link {
+		delete(p.linksByLabel, link.SwitchLabel())
+	}
 
 	// If we reach zero links, trigger peering.
 	if len(p.links) == 0 && !p.mgr.IsDone() {
@@ -297,8 +310,8 @@ func (p *Peering) closeAllListeners() {
 }
 
 func (p *Peering) copyLinksWithLocking() map[netip.Addr]Link {
-	p.listenersLock.Lock()
-	defer p.listenersLock.Unlock()
+	p.linksLock.RLock()
+	defer p.linksLock.RUnlock()
 
 	return maps.Clone[map[netip.Addr]Link, netip.Addr, Link](p.links)
 }
